@@ -166,19 +166,11 @@ def i4_entry(ctx, RL):
     ctx.inst(R)
     if not (RL.index('dispatch') < RL.index('interrupt') < RL.index('tick')):
         ctx.report(R, f, blk, 'interrupt stage order', 'interrupt entry is not between the instruction dispatch and the per-cycle tick')
-    c = r.r(blk['cond'])
-    conj = set()
-
-    def split(e):
-        e = unwrap_casts(e)
-        if e.get('k') == 'bin' and e.get('op') == '&&':
-            split(e['lhs'])
-            split(e['rhs'])
-        else:
-            conj.add(r.r(e))
-    split(blk['cond'])
-    if conj != {REGS + 'ie)', '(! ' + REGS + 'rep))'}:
-        ctx.report(R, f, blk, 'interrupt stage guard', 'interrupts are taken under %s, expected ie && !rep' % sorted(conj))
+    from .. import boolform
+    FM = boolform.Former(f)
+    stage_c = FM.form(blk['cond'])
+    if boolform.equivalent(stage_c, boolform.all_of(boolform.A(REGS + 'ie)'), boolform.neg(boolform.A(REGS + 'rep)')))) is not True:
+        ctx.report(R, f, blk, 'interrupt stage guard', 'interrupts are taken under %s, expected ie && !rep' % boolform.show(stage_c)[:200])
     jumps = [n for n in walk(blk) if n.get('k') == 'assign' and r.r(n['lhs']) == REGS + 'pc)']
     if len(jumps) != 2:
         ctx.report(R, f, blk, 'interrupt jumps', 'expected the fixed-vector and the vectored jump, found %d' % len(jumps))
@@ -191,7 +183,11 @@ def i4_entry(ctx, RL):
         rhs = r.r(j['rhs'])
         vectored = 'vinterrupt_address' in rhs
         inst = 'vectored entry' if vectored else 'fixed-vector entry'
-        g = {(r.r(cnd), pol) for cnd, pol, s in guards_at(blk, j)}
+        pc = boolform.path_condition(blk, j, FM)
+
+        def holds(atom, pol):
+            lit = boolform.A(atom) if pol else boolform.neg(boolform.A(atom))
+            return boolform.implies(pc, lit) is True
         # enclosing block statements
         parents = pm[id(j)]
         blocks = [p for p in parents if p.get('k') == 'block']
@@ -200,10 +196,11 @@ def i4_entry(ctx, RL):
         before = [r.s(s) for s in seq[:pos]]
         after = seq[pos + 1:]
         if vectored:
-            need = {(REGS + 'imv)', True), (REGS + 'ipv)', True), ('l:interrupt_handled', False)}
-            miss = {x for x in need if x not in g and not (x[0] == 'l:interrupt_handled' and any(k[0].startswith('l:') and not k[1] for k in g))}
+            miss = [a for a in (REGS + 'imv)', REGS + 'ipv)') if not holds(a, True)]
+            if not any(a.startswith('l:') and holds(a, False) for a in boolform.atoms(pc)):
+                miss.append('!handled (a line accepted in the same cycle)')
             if miss:
-                ctx.report(R, f, j, inst + ' guard', 'vectored entry is not guarded by %s (guards %s)' % (sorted(miss), sorted(g)))
+                ctx.report(R, f, j, inst + ' guard', 'vectored entry is not guarded by %s (taken when %s)' % (sorted(miss), boolform.show(pc)[:260]))
             if REGS + 'ipv) 0)' not in ' '.join(before) or '(= ' + REGS + 'ipv) 0)' not in before:
                 ctx.report(R, f, j, inst + ' latch', 'ipv is not cleared before the jump')
             ctxif = [s for s in after if s.get('k') == 'if' and 'ContextStore' in r.s(s)]
@@ -215,9 +212,8 @@ def i4_entry(ctx, RL):
                 ctx.report(R, f, j, inst + ' vector', 'fixed vector is not 0x0006 + 8*i: ' + rhs)
                 continue
             i = m.group(1)
-            need = {('([] ' + REGS + 'im) %s)' % i, True), ('([] ' + REGS + 'ip) %s)' % i, True)}
-            if not need <= g:
-                ctx.report(R, f, j, inst + ' guard', 'line entry is not guarded by im[i] && ip[i] of the same i: guards %s' % sorted(g))
+            if not (holds('([] ' + REGS + 'im) %s)' % i, True) and holds('([] ' + REGS + 'ip) %s)' % i, True)):
+                ctx.report(R, f, j, inst + ' guard', 'line entry is not guarded by im[i] && ip[i] of the same i: taken when %s' % boolform.show(pc)[:260])
             if '(= ([] ' + REGS + 'ip) %s) 0)' % i not in before:
                 ctx.report(R, f, j, inst + ' latch', 'ip[i] is not cleared before the jump')
             ctxif = [s for s in after if s.get('k') == 'if' and 'ContextStore' in r.s(s)]
